@@ -57,7 +57,9 @@ def _dispatch(job):
     old = signal.signal(signal.SIGALRM, _alarm)
     signal.alarm(int(timeout))
     try:
-        return fn(**kwargs)
+        import contextlib
+        with open(os.devnull, "w") as dn, contextlib.redirect_stderr(dn):
+            return fn(**kwargs)
     except _Timeout:
         return {"error": "Timeout", "problog_error": False, "inconclusive": True}
     except RecursionError as e:
